@@ -493,7 +493,8 @@ func (setSelf *SetForInterfaceDef) Union(input *SetForInterfaceDef) *SetForInter
 // Intersection Get the Intersection with this Set and an another Set
 func (setSelf *SetForInterfaceDef) Intersection(input *SetForInterfaceDef) *SetForInterfaceDef {
 	if input == nil || input.Size() == 0 {
-		return new(SetForInterfaceDef)
+		result := make(SetForInterfaceDef)
+		return &result
 	}
 
 	result := SetForInterfaceDef(IntersectionMapByKeyForInterface(*setSelf, *input))
